@@ -196,6 +196,46 @@ Theorem C12_mkdir_all_kernel_backend :
     end.
 Proof. exact DynMkdirAll.mkdir_all_kernel. Qed.
 
+(* ---- C12, the whole statement (kernel backend, path with a missing tail) ------------------------
+   On the dynamic kernel, over any tree: mkdir_all ends with the tree extended by new directories only
+   (also when it fails); when it succeeds, the returned descriptor is open on a directory and that
+   directory IS the kernel's in-root resolution of the path in the resulting tree. *)
+From PV Require DynResolve.
+
+Theorem C12_handle_is_resolution_in_resulting_tree :
+  forall s s' path nosym o rm c,
+  DynMkdir.closed2 s -> FSModel.is_dir s FSModel.ROOT = true -> path <> [] ->
+  DynMkdirAll.kpartial s path nosym = DynMkdirAll.KPartial o rm ENOENT ->
+  DynMkdir.extends s s' -> FSModel.is_dir s o = true ->
+  existsb is_dotdot (DynMkdirAll.parts_of (Some rm)) = false ->
+  DynMkdir.descend_dirs s' o (DynMkdirAll.parts_of (Some rm)) = Some c ->
+  FSModel.kwalk s' path false nosym = FSModel.WOk c.
+Proof. exact DynResolve.mkdir_all_handle_is_resolution. Qed.
+
+Theorem C12_mkdir_all_post_kernel_backend :
+  forall s rp fz pfuel gh ps rs t root path mode o rm exp,
+  fz <> 0%nat -> DynMkdir.closed2 s -> FSModel.is_dir s FSModel.ROOT = true ->
+  ph_mnt gh = Some Static.PROC_MNT -> ph_openat2 gh = true -> rs_kernel rs = true ->
+  Static.tget t root = Some FSModel.ROOT -> Static.tget t (ph_fd gh) = Some (Static.PB s) -> has_nul path = false -> path <> [] ->
+  N.ldiff mode MKDIR_ALL_MASK1 = 0 -> N.ldiff mode MKDIR_ALL_MASK2 = 0 ->
+  let nosym := has (N.lor OPENAT2_RESOLVE_RESOLVE (rs_flags rs)) RESOLVE_NO_SYMLINKS in
+  DynMkdirAll.kpartial s path nosym = DynMkdirAll.KPartial o rm ENOENT ->
+  FSModel.is_dir s o = true -> Static.find_path s o = Some exp -> N.leb READLINK_BUF (N.of_nat (length (Static.render rp exp))) = false ->
+  existsb is_dotdot (DynMkdirAll.parts_of (Some rm)) = false ->
+  let s' := fst (DynMkdir.mk_spec s o (DynMkdirAll.parts_of (Some rm))) in
+  DynMkdir.extends s s' /\
+  exists t',
+    match snd (DynMkdir.mk_spec s o (DynMkdirAll.parts_of (Some rm))) with
+    | inl c => exists fd,
+        Dyn.drun rp {| Dyn.ds := s; Dyn.dt := t; Dyn.dseen := [] |} (root_mkdir_all fz true (S pfuel) gh ps rs root path mode) =
+          Dyn.DDone {| Dyn.ds := s'; Dyn.dt := t'; Dyn.dseen := [] |} (Ok fd) /\ Static.tget t' fd = Some c /\
+        FSModel.is_dir s' c = true /\ FSModel.kwalk s' path false nosym = FSModel.WOk c
+    | inr e =>
+        Dyn.drun rp {| Dyn.ds := s; Dyn.dt := t; Dyn.dseen := [] |} (root_mkdir_all fz true (S pfuel) gh ps rs root path mode) =
+          Dyn.DDone {| Dyn.ds := s'; Dyn.dt := t'; Dyn.dseen := [] |} (Err (OsError e))
+    end.
+Proof. exact DynResolve.mkdir_all_kernel_post. Qed.
+
 (* executed (non-vacuity): abs -> /a; mkdir_all("abs/x/y/z") on both backends creates a/x, a/x/y, a/x/y/z and
    returns the last one; the pure functions give the same tree and object; a file in the way ends the loop
    with ENOTDIR after a/x was created (what was created lies on the chain) *)
@@ -230,3 +270,5 @@ Print Assumptions C12_spec_post.
 Print Assumptions C12_extends_changes_nothing_else.
 Print Assumptions C12_partial_lookup_kernel_backend.
 Print Assumptions C12_mkdir_all_kernel_backend.
+Print Assumptions C12_handle_is_resolution_in_resulting_tree.
+Print Assumptions C12_mkdir_all_post_kernel_backend.
